@@ -179,6 +179,7 @@ MODULE_PATTERNS = {
     "re_paragraph_break": ("flowmark.typography.smartquotes", "PARAGRAPH_BREAK_PATTERN", False),
     "re_quote": ("flowmark.typography.smartquotes", "QUOTE_PATTERN", False),
     "re_ellipsis": ("flowmark.typography.ellipses", "ELLIPSIS_PATTERN", False),
+    "re_pangu": ("marko.ext.pangu", "PANGU_RE", False),
 }
 
 # inline literal patterns: (module, function qualname) -> list of coq names, in source order of
